@@ -6,7 +6,8 @@ CONSTANTS
   BatchSz = 2
   InCap = 0
   AsyncHWM = FALSE
-  MaxFlips = 2
+  SigCap = 2
+  MaxFlips = 3
   MaxLeaders = 1
   MaxRestarts = 0
   MaxSnaps = 0
@@ -19,6 +20,7 @@ CONSTANTS
   HWMAfterSendOK = TRUE
   PruneToHWMOnly = TRUE
   RewindCursor = FALSE
+  ParkedKeptUntilSent = TRUE
   RestartHWMBelowLowest = TRUE
   DropReapplied = TRUE
 PROPERTIES Live
